@@ -1,0 +1,59 @@
+# Contracts for the verifier in /verif (comment-only file: it contributes no code and is never imported).
+# Read by /verif/pyvc/pyvc.py, which symbolically executes the real methods of fail_safe.py and traffic_filter.py.
+
+# ====================================================================================================== fail_safe.py
+#@ module fail_safe.py
+#@ const _DEFAULT_MAX_ERROR_ALLOWED = 5
+#@ const _DEFAULT_FAILSAFE_COOLDOWN_SEC = 10
+#@ const _HEADER_ERROR_KEY = "x-lunar-error"
+# the clock (trusted: monotone)
+#@ extern time
+#@   clock
+# trusted: a deterministic test of the exception type against the handled types
+#@ extern issubclass
+#@   args t, handled
+#@   returns bool
+#@ extern LUNAR_PROXY_ERROR_TRANSLATOR.get
+#@   args code, default
+#@   returns opaque
+
+#@ class FailSafe
+#@   field _state_ok: bool
+#@   field _error_counter: int
+#@   field _cooldown_started_at: real
+#@   field _handle_on: opaque
+#@   field _max_errors_allowed: int
+#@   field _cooldown_time: int
+#@   invariant[count-non-negative] self._error_counter >= 0
+
+# Leaving the `with fail_safe:` block. A gateway-side failure (an exception of a handled type) is swallowed and counted;
+# the circuit opens exactly when the count of consecutive failures reaches the threshold, and the cool-down starts then;
+# any other exception is NOT swallowed and changes nothing; leaving without an exception clears the count.
+#@ method FailSafe.__exit__
+#@   prop C19
+#@   param exc_type: optional opaque
+#@   param exc_value: opaque
+#@   param traceback: opaque
+#@   ensures[success-clears-the-count] is_none(exc_type) ==> returned() and result == True and self._error_counter == 0 and self._state_ok == old(self._state_ok) and self._cooldown_started_at == old(self._cooldown_started_at)
+#@   ensures[other-errors-are-not-swallowed] (not is_none(exc_type)) and (not issubclass(exc_type, old(self._handle_on))) ==> returned() and result == False and self._error_counter == old(self._error_counter) and self._state_ok == old(self._state_ok) and self._cooldown_started_at == old(self._cooldown_started_at)
+#@   ensures[gateway-failure-is-counted] (not is_none(exc_type)) and issubclass(exc_type, old(self._handle_on)) ==> returned() and result == True and self._error_counter == old(self._error_counter) + 1
+#@   ensures[opens-at-the-threshold] (not is_none(exc_type)) and issubclass(exc_type, old(self._handle_on)) ==> iff(self._state_ok, old(self._state_ok) and old(self._error_counter) + 1 < self._max_errors_allowed)
+#@   ensures[cool-down-starts-when-opened] (not is_none(exc_type)) and issubclass(exc_type, old(self._handle_on)) and old(self._error_counter) + 1 >= self._max_errors_allowed ==> self._cooldown_started_at == now and now >= old(now)
+#@   ensures[settings-untouched] self._max_errors_allowed == old(self._max_errors_allowed) and self._cooldown_time == old(self._cooldown_time)
+
+# Asking whether traffic may go through the gateway: an open circuit closes again once the cool-down period has passed,
+# and not before; a closed circuit stays closed.
+#@ method FailSafe.state_ok
+#@   prop C19
+#@   ensures[answer-is-the-state] returned() and result == self._state_ok
+#@   ensures[closed-stays-closed] old(self._state_ok) ==> result == True
+#@   ensures[bypass-during-cool-down] (not old(self._state_ok)) and now - old(self._cooldown_started_at) < self._cooldown_time ==> result == False
+#@   ensures[gateway-tried-again-after-cool-down] (not old(self._state_ok)) and now - old(self._cooldown_started_at) >= self._cooldown_time ==> result == True
+#@   ensures[count-and-settings-untouched] self._error_counter == old(self._error_counter) and self._max_errors_allowed == old(self._max_errors_allowed) and self._cooldown_time == old(self._cooldown_time)
+
+# A response that carries the gateway's error header is turned into the handled exception type, nothing else is raised.
+#@ method FailSafe.validate_headers
+#@   prop C19
+#@   param headers: opaque
+#@   raises-only[only-the-gateway-error] ProxyErrorException
+#@   ensures[error-header-raises] iff(_HEADER_ERROR_KEY in headers, raised(ProxyErrorException))
